@@ -200,7 +200,7 @@ static bool run_batch(Context& cx, const COp& op, const Target& tg, const xsv_en
             continue;
         cld r = op.ref(za, zb, zc);
         cld g((ld)o[l], op.real_result ? 0 : (ld)o[n + l]);
-        if (!std::isfinite((double)r.real()) || !std::isfinite((double)r.imag()))
+        if (op.tol != 0 && (!std::isfinite((double)r.real()) || !std::isfinite((double)r.imag())))
         {
             cx.st.skipped_lanes++;
             continue;
@@ -210,9 +210,8 @@ static bool run_batch(Context& cx, const COp& op, const Target& tg, const xsv_en
         if (op.tol == 0)
         {
             T er = (T)r.real(), ei = (T)r.imag();
-            bool same = model::bits(er) == model::bits(o[l]) && (op.real_result || model::bits(ei) == model::bits(o[n + l]));
-            if (name == "proj" || name == "real" || name == "imag" || name == "conj" || name == "neg")
-                same = same;
+            // bit for bit; a NaN component matches any NaN (payload and sign of a NaN are not part of the claim)
+            bool same = model::same(er, o[l]) && (op.real_result || model::same(ei, o[n + l]));
             if (!same)
                 why = "exact operation: result bits differ";
         }
@@ -373,7 +372,8 @@ static void c16_type(Context& cx)
             rc::detail::checkTestable(
                 [&]() {
                     T x[32], y[32], z[32];
-                    const int mode = *rc::gen::resize(100, rc::gen::inRange<int>(0, 4));
+                    const bool exact_op = op.tol == 0; // neg conj proj real imag: any component value, compared bit for bit
+                    const int mode = *rc::gen::resize(100, rc::gen::inRange<int>(0, exact_op ? 6 : 4));
                     const int khi = box ? 4 : kmax;
                     auto px = *rc::gen::container<std::vector<Pol>>((size_t)n, rc::gen::resize(100, polg(-kmax, khi)));
                     auto py = *rc::gen::container<std::vector<Pol>>((size_t)n, rc::gen::resize(100, polg(mode == 1 ? -3 : -kmax, mode == 1 ? 3 : kmax)));
@@ -396,6 +396,26 @@ static void c16_type(Context& cx)
                             z[l] = u(4);
                             z[n + l] = u(5);
                         }
+                        if (mode >= 4)
+                        {
+                            // raw components: special values, huge / tiny magnitudes (|z|^2 overflows or underflows), arbitrary bit patterns
+                            using L = std::numeric_limits<T>;
+                            static const T sp[] = { (T)0, -(T)0, L::denorm_min(), L::min(), (T)1, (T)-1.5, L::max(), -L::max(), L::infinity(), -L::infinity(), L::quiet_NaN(),
+                                                    (T)1e19, (T)-3e19, (T)1e30, (T)(sizeof(T) == 8 ? 1e154 : 1e38), (T)(sizeof(T) == 8 ? -1e200 : -2e38), (T)(sizeof(T) == 8 ? 1e-200 : 1e-30) };
+                            auto pick = [&](int i) -> T {
+                                const uint64_t r = mix64(ur[6 * l + i]);
+                                if (r & 3)
+                                    return sp[(r >> 8) % (sizeof sp / sizeof sp[0])];
+                                T v;
+                                const uint64_t bits = r >> 2 ^ r << 17;
+                                memcpy(&v, &bits, sizeof v);
+                                return v;
+                            };
+                            x[l] = pick(0);
+                            x[n + l] = pick(1);
+                            y[l] = pick(2);
+                            y[n + l] = pick(3);
+                        }
                         if (std::string(op.name) == "pow_real" || std::string(op.name) == "polar")
                         {
                             // real second operand: exponent with |y ln|z|| <= 8 / angle in [-20, 20]
@@ -413,7 +433,7 @@ static void c16_type(Context& cx)
                             nontrivial = true;
                     }
                     cx.st.evaluations++;
-                    static const char* mn[] = { "grid", "grid_second_moderate", "grid_wide", "uniform_box" };
+                    static const char* mn[] = { "grid", "grid_second_moderate", "grid_wide", "uniform_box", "raw_components", "raw_components" };
                     cx.st.classes[std::string("mode_") + mn[mode]]++;
                     if (nontrivial)
                         cx.st.note_distinct(hash_bytes(x, sizeof(T) * 2 * n, hash_bytes(y, sizeof(T) * 2 * n, hash_str(op.name))));
@@ -429,11 +449,12 @@ static void c16_type(Context& cx)
                     if (std::string(op.name) == "add")
                     {
                         // == / != share the operands; make some lanes equal in one or both components
-                        for (int l = 0; l < n; l += 2)
+                        for (int l = 0; l < n; ++l)
                         {
-                            y[l] = x[l];
-                            if (l % 4 == 0)
-                                y[n + l] = x[n + l];
+                            if (l % 4 == 0 || l % 4 == 2)
+                                y[l] = x[l];
+                            if (l % 4 == 0 || l % 4 == 1)
+                                y[n + l] = x[n + l]; // lane classes: both equal, imaginary equal only, real equal only, both differ
                         }
                         run_eq<T>(cx, tg, x, y);
                     }
